@@ -192,7 +192,7 @@ PROPS['C07'] = {
     'level_text': 'Deductive proof (Verus/Z3): every network-capable stand-in call (send, text) requires net_allowed(), and the helper is '
                   'verified under `req.sat(None) ==> net_allowed()` only, so any wire operation on a path where the check failed (or before '
                   'it ran) is an unmet precondition; `!req.sat(None) ==> res is Err` is a postcondition.',
-    'level_note': 'Trusted: stand-in contracts as for C16; the trait contract of CheckRestrictions (proved per impl under C06 and, for '
+    'level_note': 'Round 11: types derived from a named simple type carry the extra clause #enforces-inherited-facets (a value violating a facet of the base is rejected); `X.or_else(|| E)` in emitted text is presented as a match (definition of or_else); a failed obligation of an emitted function with a closure / std call Verus knows nothing about makes the check inconclusive, never OK. Trusted: stand-in contracts as for C16; the trait contract of CheckRestrictions (proved per impl under C06 and, for '
                   'emitted impls, by the L3 pipeline). The error VARIANT (Restriction) is not proved: the `?` conversion hides it from Verus.',
     'assumptions': ['reqwest stand-ins', 'req.dom(None): numerals beyond i128 in numeric-restricted text are outside the domain (known finding of C06)'],
 }
